@@ -105,6 +105,8 @@ type Pred struct {
 }
 
 type Lemma struct {
+	Vars   []string // ground family: variables ...
+	Doms   []string // ... and their domains ("v3.AV", "int:0..100")
 	Name   string
 	Alias  string
 	Labels []string
@@ -207,6 +209,17 @@ func (u *Universe) parseContractFile(alias, fname, text string) error {
 			}
 			head := strings.TrimSpace(rc.text[:i])
 			lm := &Lemma{Alias: alias, Src: where}
+			if j := strings.Index(head, " over "); j >= 0 {
+				for _, it := range splitTopComma(head[j+6:]) {
+					k := strings.LastIndex(it, " in ")
+					if k < 0 {
+						return fail(fmt.Errorf("lemma item %q: missing 'in DOMAIN'", it))
+					}
+					lm.Vars = append(lm.Vars, strings.TrimSpace(it[:k]))
+					lm.Doms = append(lm.Doms, strings.TrimSpace(it[k+4:]))
+				}
+				head = strings.TrimSpace(head[:j])
+			}
 			if j := strings.Index(head, "["); j >= 0 {
 				lm.Labels = splitList(strings.Trim(head[j:], "[]"))
 				head = head[:j]
